@@ -177,9 +177,12 @@
  * slot.  If we let the compiler know this too, it can optimize away
  * the "if (value in one slot)" branch and just use always-two-slot
  * reading/writing. */
-#ifndef PACK_STORAGE_COMPACT
+/* Always keep the single-slot branch: with PACK_STORAGE_COMPACT and a bit
+ * width that does fit inside one slot (e.g. 3 bits in uint8_t slots) the
+ * two-slot path would also read and rewrite the following slot, which for the
+ * last element lies past the end of the caller's storage. When a value can
+ * never fit in one slot the compiler removes the branch itself. */
 #define SLOT_CAN_HOLD_ENTIRE_VALUE 1
-#endif
 /* We can't define HOLD_ENTIRE_VALUE as below because BITS_PER_SLOT has sizeof()
  * the preprocessor doesn't know about.  We don't want to manually define bit
  * widths per type, so we juse use the STORAGE_COMPACT setting to determine
